@@ -84,6 +84,10 @@ class RangeMixin(object):
     def overlaps(self, other):
         if not isinstance(other, TermRange):
             return False
+        if not isinstance(self, TermRange):
+            # A NumericRange has numbers as bounds, a TermRange has terms:
+            # comparing them raises TypeError
+            return False
         if self.fieldname != other.fieldname:
             return False
 
